@@ -7,6 +7,9 @@
 (* dust limits recorded on the Reset/Inject lines.                           *)
 (*  kind "tx"  (harness/lnwallet/c17_test.go): Reset, Pay, Inject, Close     *)
 (*             Rbf, RbfM (harness/lnwallet/chancloser/c17_rbf_test.go)       *)
+(*  kind "peer" (harness/lnwallet/chancloser/c17_peer_test.go): Reset,      *)
+(*             Inject, POffer, NReply, NOffer, PReply, NSig - part III: one  *)
+(*             real node against the model-driven honest peer                *)
 (*  kind "neg" (harness/lnwallet/chancloser/c17_test.go): Reset, Begin,      *)
 (*             Cache, Recv, NegEnd                                           *)
 EXTENDS CoopClose, Json
@@ -19,9 +22,11 @@ Bit(x) == IF x THEN 1 ELSE 0
 TInit == /\ ch = MidChan("A", FALSE) /\ tx = [p \in P |-> NoTx] /\ NegIdle /\ l = 1
 Is(a) == l <= Len(Trace) /\ Trace[l].a = a /\ l' = l + 1
 
-NegIdleNext == /\ ideal' = [p \in P |-> 0] /\ maxfee' = [p \in P |-> 0] /\ last' = [p \in P |-> 0]
+NegIdleNext0 == /\ ideal' = [p \in P |-> 0] /\ maxfee' = [p \in P |-> 0] /\ last' = [p \in P |-> 0]
                /\ prior' = [p \in P |-> {}] /\ done' = [p \in P |-> 0]
                /\ msg' = 0 /\ turn' = "A" /\ rounds' = 0 /\ err' = ""
+NegIdleNext == NegIdleNext0 /\ rb' = RbIdle
+neg0 == <<ideal, maxfee, last, prior, done, msg, turn, rounds, err>>
 
 \* field copies of what the executor read from both channel states
 ChanOf(r) == [opener |-> r.opener, anchors |-> r.anchors = 1, taproot |-> r.taproot = 1,
@@ -36,11 +41,22 @@ ResetNeg == /\ Is("Reset") /\ Trace[l].kind = "neg"
             /\ tx' = [p \in P |-> NoTx]
             /\ ideal' = [p \in P |-> Trace[l].ideal[p]] /\ maxfee' = [p \in P |-> Trace[l].maxfee[p]]
             /\ last' = [p \in P |-> 0] /\ prior' = [p \in P |-> {}] /\ done' = [p \in P |-> 0]
-            /\ msg' = 0 /\ turn' = Trace[l].opener /\ rounds' = 0 /\ err' = ""
+            /\ msg' = 0 /\ turn' = Trace[l].opener /\ rounds' = 0 /\ err' = "" /\ rb' = RbIdle
+\* part III: the node (party, Environment.BlockHeight), the height and the network dust limits of the delivery
+\* scripts (lnwallet.DustLimitForSize of each) are field copies of the executor's configuration
+ResetPeer == /\ Is("Reset") /\ Trace[l].kind = "peer"
+             /\ ch' = ChanOf(Trace[l]) /\ tx' = [p \in P |-> NoTx] /\ NegIdleNext0
+             /\ rb' = RbStart(Trace[l].node, Trace[l].envh, Trace[l].ht, [p \in P |-> Trace[l].sd[p]])
 
 TNext ==
   \/ ResetTx
   \/ ResetNeg
+  \/ ResetPeer
+  \/ Is("POffer") /\ PeerOffer(Trace[l].x, Trace[l].lt, Trace[l].k, {Trace[l].f}, 99) /\ UNCHANGED neg0
+  \/ Is("NReply") /\ NodeReply /\ UNCHANGED neg0
+  \/ Is("NOffer") /\ NodeOffer(Trace[l].x) /\ UNCHANGED neg0
+  \/ Is("PReply") /\ PeerReply /\ UNCHANGED neg0
+  \/ Is("NSig") /\ NodeSig /\ UNCHANGED neg0
   \/ /\ Is("Inject")      \* balances written into both channel states: the line carries what was written
      /\ ch' = [ch EXCEPT !.view = [p \in P |-> [our |-> Trace[l].view[p].our, their |-> Trace[l].view[p].their,
                                                 cfee |-> Trace[l].view[p].cfee]]]
@@ -57,11 +73,14 @@ TNext ==
 TSpec == TInit /\ [][TNext]_<<vars, l>>
 
 Live == l > 1
-IsTx == Live /\ (Last.a \in {"Pay", "Inject", "Close", "Rbf", "RbfM"} \/ (Last.a = "Reset" /\ Last.kind = "tx"))
-AtClose == Live /\ Last.a \in {"Close", "Rbf", "RbfM"}
+PeerActs == {"POffer", "NReply", "NOffer", "PReply", "NSig"}
+IsTx == Live /\ (Last.a \in ({"Pay", "Inject", "Close", "Rbf", "RbfM"} \cup PeerActs)
+                 \/ (Last.a = "Reset" /\ Last.kind \in {"tx", "peer"}))
+\* lines that carry the transactions both parties ended up with
+AtClose == Live /\ Last.a \in {"Close", "Rbf", "RbfM", "NReply", "PReply", "NSig"}
 
 \* ---- transaction layer ----
-ConformCfg  == (Live /\ Last.a = "Reset" /\ Last.kind = "tx") => Last.cap = Capacity
+ConformCfg  == (Live /\ Last.a = "Reset" /\ Last.kind \in {"tx", "peer"}) => Last.cap = Capacity
 \* after a real payment the balances both parties recorded are the model's
 ConformView == (Live /\ Last.a = "Pay") =>
                   \A p \in P : /\ Last.view[p].our = ch.view[p].our /\ Last.view[p].their = ch.view[p].their
@@ -90,6 +109,34 @@ ConformScripts == (Live /\ Last.a = "RbfM" /\ tx[Last.p].res = "ok") =>
                     /\ Last.ann.cc_closer = ch.scr[c][c] /\ Last.ann.cc_closee = ch.scr[c][e]
                     /\ Last.ann.cs_closer = ch.scr[e][c] /\ Last.ann.cs_closee = ch.scr[e][e]
                     /\ \A p \in P : \A o \in P : Last.has[p][o] = 1 => Last.sidx[p][o] = ch.scr[o][o]
+
+\* ---- part III: one real node against the model-driven peer ----
+AtPeer == Live /\ Last.a \in PeerActs
+FSet(r) == {f \in Fields : r[f] = 1}
+\* the outcome of the step for the acting party (node: error class of its machine; peer: its lnwallet / the answer)
+ConformPeerRes == AtPeer => Last.pres = rb.res
+\* the transaction the peer's own wallet built for its offer has the outputs its signature field claims
+ConformPeerOffer == (Live /\ Last.a = "POffer") =>
+                      \A q \in P : Last.has[Last.p][q] = Bit(Has(q, Last.x, Last.p))
+\* what the node put on the wire: its closing_complete (NOffer) / its closing_sig (NReply)
+ConformNodeMsg ==
+  /\ (Live /\ Last.a = "NOffer" /\ rb.res = "ok") =>
+        /\ Last.msg.fee = rb.own.fee /\ Last.msg.lt = rb.own.lt
+        /\ Last.msg.cs = rb.own.cs /\ Last.msg.es = rb.own.es /\ FSet(Last.msg.F) = rb.own.F
+  /\ (Live /\ Last.a = "NReply" /\ rb.res = "ok") =>
+        /\ Last.msg.fee = rb.ans.fee /\ Last.msg.lt = rb.ans.lt
+        /\ Last.msg.cs = ch.scr[rb.node][Other(rb.node)] /\ Last.msg.es = ch.scr[rb.node][rb.node]
+        /\ FSet(Last.msg.F) = {rb.csf}
+\* the lock time of every completed transaction is the one the closing_complete announced
+ConformLockTime == (Live /\ Last.a \in {"NReply", "PReply", "NSig"}) =>
+                      \A p \in P : tx[p].res = "ok" => Last.ltx[p] = tx[p].lt
+\* every output of every completed transaction pays the script the answered message names for its owner
+ConformPeerScripts == (Live /\ Last.a \in {"NReply", "PReply", "NSig"}) =>
+                      LET closer == IF Last.a = "NReply" THEN Other(rb.node) ELSE rb.node IN
+                      \A p \in P : \A o \in P : (tx[p].res = "ok" /\ Last.has[p][o] = 1) =>
+                         Last.sidx[p][o] = (IF o = closer THEN rb.ans.cs ELSE rb.ans.es)
+\* the answer the executor's peer was told to give is the one this model gives (same state on both sides)
+ConformSched == (Live /\ Last.a = "PReply") => (Last.sched.res = rb.res /\ Last.sched.sel = rb.sel)
 
 \* ---- negotiation ----
 AtNeg == Live /\ Last.a \in {"Begin", "Recv"}
